@@ -254,9 +254,12 @@ End Brute.
 (** The hypotheses are satisfiable: the predicate that never reports a crossing. *)
 Example invert_complement_laws_satisfiable :
   eov_sym_cd_law nat (fun _ _ _ _ => false) /\ eov_degenerate_cd_law nat (fun _ _ _ _ => false).
-Proof. split; intros; reflexivity. Qed.
+Proof. unfold eov_sym_cd_law, eov_degenerate_cd_law. split; intros; reflexivity. Qed.
 (* and a non-trivial one: "c and d are on different sides of the threshold a+b" *)
 Example invert_complement_laws_satisfiable' :
   let e := fun a b c d => xorb (Nat.ltb c (a + b)) (Nat.ltb d (a + b)) in
   eov_sym_cd_law nat e /\ eov_degenerate_cd_law nat e.
-Proof. cbv zeta. split; intros a b c; intros; [apply xorb_comm | apply xorb_nilpotent]. Qed.
+Proof.
+  unfold eov_sym_cd_law, eov_degenerate_cd_law. cbv zeta.
+  split; intros a b c; intros; [apply xorb_comm | apply xorb_nilpotent].
+Qed.
